@@ -210,6 +210,9 @@ def make_op(rng, tasks, wbss, facades, mode='mixed', former=None):
             Op(f'{fo}.sort("id")', lambda: f.sort('id'), [R(owner)], ('sort', R(owner), False)),
             Op(f'{fo}.insert({i}, {tn(fu)})', lambda: f.insert(i, fu), [R(owner), fu], ('insert-child', R(owner), i, fu)),
         ]
+    targeted = [o for o in cand if '[' in o.name and ('former' in o.name or 'promotes' in o.name)] + [o for o in cand if o.name.startswith('facade')]
+    if mode != 'links' and targeted and rng.random() < 0.3:
+        return rng.choice(targeted)
     if mode == 'links':
         cand = [o for o in cand if o.effect[0] in ('assign-links', 'append-link', 'remove-link')]
     elif mode == 'hierarchy':
